@@ -227,11 +227,22 @@ class DeepGen(TGen):
     def obj(self, owner, props, d, steps=None):
         out = {}
         self._stack.append(owner)
+        taken = False  # ONE recursive property per object carries the depth (several would branch: 3^depth)
         try:
             for k, p in props.items():
                 rec = owner in self.mm.S and self._reaches(p["type"], owner)
+                if rec and taken:
+                    if p.get("optional"):
+                        continue
+                    self._stack.append("<no further recursion>")
+                    try:
+                        out[k] = Gen.gen(self, p["type"], self.maxdepth)
+                    finally:
+                        self._stack.pop()
+                    continue
                 if p.get("optional") and not (rec and d < self.maxdepth):
                     continue
+                taken = taken or (rec and d < self.maxdepth)
                 out[k] = self.gen(p["type"], d + 1)
         finally:
             self._stack.pop()
